@@ -1,0 +1,51 @@
+//go:build verif
+
+// Contracts for the deductive checks in /verif (comment-only; compiled to nothing).
+// Syntax and semantics: /verif/DESIGN.md section 2.2.
+
+package py
+
+// ---- spec macros ---------------------------------------------------------------------------
+
+//@ spec den(x Object) int = ite(is(x, Int), x.(Int), ite(is(x, *BigInt), bigval[x.(*BigInt)], ite(is(x, Bool), ite(x.(Bool), 1, 0), 0)))
+//@ spec isIntLike(x Object) bool = is(x, Int) || is(x, *BigInt) || is(x, Bool)
+//@ spec isSmallInt(x Object) bool = is(x, Int) || is(x, Bool)
+//@ spec canon(r Object) bool = is(r, Int) || (is(r, *BigInt) && !inInt64(bigval[r.(*BigInt)]))
+//@ spec raisesExc(err error, t *Type) bool = is(err, *Exception) && err.(*Exception).Base == t
+//@ spec isBoolVal(r Object, b bool) bool = is(r, Bool) && (r.(Bool) <==> b)
+
+// ---- global invariants (state established by package init; no non-init function writes these variables) ----
+
+//@ global-invariant bools: True && !False
+//@ global-invariant bigconsts: bigIntMax != nil && bigIntMin != nil && bigInt0 != nil && bigInt1 != nil && bigInt10 != nil
+//@ global-invariant bigvals: bigval[bigIntMax] == 9223372036854775807 && bigval[bigIntMin] == 0 - 9223372036854775808 && bigval[bigInt0] == 0 && bigval[bigInt1] == 1 && bigval[bigInt10] == 10
+//@ global-invariant errs: divisionByZero != nil && divisionByZero.Base == ZeroDivisionError && negativeShiftCount != nil && negativeShiftCount.Base == ValueError
+//@ global-invariant errs2: overflowError != nil && overflowError.Base == OverflowError && overflowErrorGo != nil && overflowErrorGo.Base == OverflowError
+//@ global-invariant singletons: NotImplemented != nil && None != nil
+
+// ---- py/int.go -----------------------------------------------------------------------------
+
+//@ func intAdd(a, b) (r)
+//@   ensures exact: den(r) == a + b
+//@   ensures canon: canon(r)
+
+//@ func intSub(a, b) (r)
+//@   ensures exact: den(r) == a - b
+//@   ensures canon: canon(r)
+
+//@ func intMul(a, b) (r)
+//@   ensures exact: den(r) == a * b
+//@   ensures canon: canon(r)
+
+// ---- py/bigint.go --------------------------------------------------------------------------
+
+//@ func (*BigInt).Int(x) (r, err)
+//@   pure
+//@   ensures fit: inInt64(bigval[x]) ==> err == nil && r == bigval[x]
+//@   ensures big: !inInt64(bigval[x]) ==> raisesExc(err, OverflowError)
+
+//@ func (*BigInt).MaybeInt(x) (r)
+//@   pure
+//@   ensures val: den(r) == bigval[x]
+//@   ensures canon: canon(r)
+//@   ensures same: is(r, *BigInt) ==> r.(*BigInt) == x
